@@ -35,14 +35,18 @@ func init() {
 	fw.Register(&fw.Prop{
 		ID: "C10", Level: "exploration", Run: runC10, Replay: replayC10,
 		Rule:        "a case = (contents of the 1-3 files of an item, clock, archive selection, window, mode); contents enumerate every hole pattern ({absent, v} per slot for 3 files, {absent, v, w} for 1-2 files) with file-specific values so that a sum identifies its contributors; non-trivial = at least one slot of the window has a value in some but not all files.",
-		Assumptions: []string{"values are small integers: float addition is exact and order-independent", "the -item option is a directory pattern relative to the base (it/x), printed dotted (it.x)"},
+		Assumptions: []string{"values are small integers incl. 0 and cancelling pairs: float addition is exact and order-independent", "the -item option is a directory pattern relative to the base (it/x), printed dotted (it.x)"},
 		NeedsInstr:  []string{"cmd:time.Now"},
 	})
 }
 
+// c10Choices: file-specific values so that a sum identifies its contributors.  The second value of each file
+// makes running totals hit exactly zero (a stored 0 in the first file, values of later files that cancel the
+// earlier ones): a sum must treat 0 as a value, not as "nothing yet".
 func c10Choices(file, base int) []SlotChoice {
 	v := float64(int(1) << uint(file))
-	ch := []SlotChoice{{Kind: "absent"}, {Kind: "value", V: v}, {Kind: "value", V: -10 * v}}
+	w := []float64{0, -1, -3, -7}[file%4] // a: 0 ; b: -1 (cancels a's 1) ; c: -3 (cancels 1+2)
+	ch := []SlotChoice{{Kind: "absent"}, {Kind: "value", V: v}, {Kind: "value", V: w}}
 	return ch[:base]
 }
 
